@@ -34,6 +34,15 @@ CHR_POOL = ["chr1", "chr2", "chr10", "chrX", "chr3", "chr21"]
 # merged order among equal keys is the order `get_chr_list` hands over (by length, stable on the FASTA order), so the
 # outputs must still not depend on threads / hash seed / memory mode.  Passed as `build(rng, chrom_names=...)`.
 EQUAL_KEY_CHROMS = ["chr1", "Chr1", "chr01", "chr001", "chr2"]
+# audit2-B GAP C06-1: contigs whose auxiliary files share a name - `<save>_chr1_groups` is the read-group dump of chr1 AND the
+# save file of the contig chr1_groups, `<save>_chr2_bamstat` the alignment statistics of chr2 AND the save file of
+# chr2_bamstat.  Unrepaired tree: which task writes last depends on the schedule (`--threads 1` exit 0, `--threads 2`
+# AssertionError / EOFError in some runs) -> C06 `exit_status_differs:threads`.  Repaired tree
+# (fix_chromosome_file_names.patch): every configuration refuses the reference at start-up, exit code 254.
+# (With `chr1_groups` in the set and --read_group EVERY configuration of the unrepaired tree aborts alike - AssertionError in
+# prepare_multimapper_dict, also with --threads 1 -, which is an abort on legal input but no C06 difference; the pair
+# chr2 / chr2_bamstat alone gives: threads 1 exit 0 in 3 of 3 runs, threads 2 exit 255 in 2 of 8, threads 4 in 5 of 5.)
+AUX_NAME_CHROMS = ["chr1", "chr2", "chr2_bamstat"]
 
 
 def _exons(rng, start, n, lmin=150, lmax=350, imin=300, imax=1200):
